@@ -264,6 +264,26 @@ class Analysis:
             return "<method>%s" % meth
         return "<unknown>computed-callee"
 
+    def escaping_functions(self):
+        """fids of package functions/methods referenced in a non-call position (passed around as values)."""
+        if getattr(self, "_escaping", None) is not None:
+            return self._escaping
+        out = set()
+        for mod, m in self.mods.items():
+            for qual, node in m.funcs.items():
+                cls = m.cls_of[qual]
+                called = {id(n.func) for n in ast.walk(node) if isinstance(n, ast.Call)}
+                for n in ast.walk(node):
+                    if id(n) in called:
+                        continue
+                    if isinstance(n, ast.Attribute) and isinstance(n.ctx, ast.Load) and isinstance(n.value, ast.Name) \
+                            and n.value.id == "self" and cls is not None and cls + "." + n.attr in m.funcs:
+                        out.add(self.fid(mod, cls + "." + n.attr))
+                    elif isinstance(n, ast.Name) and isinstance(n.ctx, ast.Load) and n.id in m.funcs:
+                        out.add(self.fid(mod, n.id))
+        self._escaping = sorted(out)
+        return self._escaping
+
     def analyse(self, mod, qual):
         """-> (sorted CALENDAR attrs read, sorted callees)."""
         m = self.mods[mod]
@@ -325,6 +345,15 @@ class Analysis:
         # alias of an attribute) is over-approximated by every method of that
         # name in the package; only when there is none does it stay unknown
         # (unknown callees count as mode dependent in Proofs/CacheSpec.v)
+        params = {a.arg for a in node.args.args + node.args.kwonlyargs + node.args.posonlyargs}
+        for c in sorted(callees):
+            # a call of one of the function's own parameters (a callable handed in): any package function that
+            # is ever mentioned as a value rather than called
+            if c.startswith("<unknown>") and c[len("<unknown>"):] in params:
+                esc = self.escaping_functions()
+                if esc:
+                    callees.discard(c)
+                    callees.update(esc)
         for c in sorted(callees):
             if c.startswith("<method>"):
                 meth = c[len("<method>"):]
